@@ -19,6 +19,7 @@ theorem not_snoc_prefix_self (pp : Path) (i : Nat) : ¬ (pp ++ [i]) <+: pp := by
   intro h
   have := h.length_le
   simp at this
+  omega
 
 theorem prefix_of_snoc_prefix {pp k : Path} {i : Nat} (h : (pp ++ [i]) <+: k) : pp <+: k :=
   (List.prefix_append pp [i]).trans h
@@ -65,7 +66,8 @@ theorem candsFrom_mem {f : Nat → T → List AstMap} {ys : Nat} :
     rcases hc with hc | hc
     · split at hc
       · cases hc
-      · split at hc
+      · simp only at hc
+        split at hc
         · cases hc
         · simp only [List.mem_singleton] at hc
           subst hc
